@@ -358,4 +358,6 @@ def run(ctx):
     rule_labels(ctx, py, vol, con)
     rule_dimguard(ctx, py)
     rule_eq3(ctx, py)
+    from .. import lints
+    lints.run(ctx, "C06", ctx.py, ["units"])
     ctx.assume("the 1e-12 composition bound is not measured; it follows from the product-of-ratios form (C06.KEYS)")
